@@ -43,6 +43,8 @@
 (* each goal cell (left one first) that holds a requested shelf: reward +1  *)
 (* (one shared scalar reward), and its queue entry is replaced by a random  *)
 (* shelf id that is not in the queue -- the only nondeterministic part.     *)
+(* The second goal cell is judged after the first replacement, so a shelf   *)
+(* standing on it that has just been requested is delivered at once.        *)
 (*                                                                          *)
 (* State record = jumanji's State without the key:                          *)
 (*   grid (<<shelves channel, agents channel>>, each a seq of rows),        *)
@@ -153,24 +155,29 @@ CollisionState(s) == \E k \in Agents : Cell(AgentChan(s), APos(s, k)) # k + 1
 
 (* ---------- deliveries: reward and the request queue (the nondeterministic part) ---------- *)
 IndexIn(q, v) == CHOOSE n \in 1..Len(q) : q[n] = v
-\* Process the goals in order on the shelf channel sh, starting from queue q; the replacement ids
-\* are read off the observed successor queue tq and must be admissible (a shelf id not in the queue
-\* at that moment).  Result: [q |-> final queue, n |-> deliveries, ok |-> every choice admissible].
-RECURSIVE Deliver(_, _, _, _)
-Deliver(q, goals, tq, sh) ==
-  IF goals = <<>> THEN [q |-> q, n |-> 0, ok |-> TRUE]
+\* Every admissible outcome of processing the goal cells in order on the shelf channel sh, starting from
+\* queue q: a set of [q |-> final queue, n |-> number of deliveries].  Each delivery replaces the entry of
+\* the delivered shelf by ANY shelf id that is not in the queue at that moment.  (The second goal sees the
+\* first replacement: an unrequested shelf standing on it may just have been requested, and then counts.)
+RECURSIVE QueueSuccs(_, _, _)
+QueueSuccs(q, goals, sh) ==
+  IF goals = <<>> THEN { [q |-> q, n |-> 0] }
   ELSE LET sid == Cell(sh, Head(goals)) IN
        IF sid # 0 /\ (sid - 1) \in Range(q)
-       THEN LET ix == IndexIn(q, sid - 1)
-                new == tq[ix]
-                rest == Deliver([q EXCEPT ![ix] = new], Tail(goals), tq, sh)
-            IN  [q |-> rest.q, n |-> rest.n + 1,
-                 ok |-> rest.ok /\ new \in ShelfIds /\ new \notin Range(q)]
-       ELSE Deliver(q, Tail(goals), tq, sh)
+       THEN UNION { { [q |-> r.q, n |-> r.n + 1] :
+                        r \in QueueSuccs([q EXCEPT ![IndexIn(q, sid - 1)] = new], Tail(goals), sh) } :
+                    new \in ShelfIds \ Range(q) }
+       ELSE QueueSuccs(q, Tail(goals), sh)
+Outcomes(s, a) == QueueSuccs(s.request_queue, GoalCells, Moved(s, a).sh)
 
-\* reward does not depend on the random choice except through a shelf re-requested while it sits on the
-\* other goal cell; it is therefore computed along the observed replacements as well
-Reward(s, a, t) == Deliver(s.request_queue, GoalCells, t.request_queue, Moved(s, a).sh).n
+\* the reward r is right for the transition s -a-> t iff (successor queue, r) is one of the outcomes
+RewardOK(s, a, t, r) == [q |-> t.request_queue, n |-> r] \in Outcomes(s, a)
+QueueAdmissible(s, a, t) == \E o \in Outcomes(s, a) : o.q = t.request_queue
+\* entries whose shelf does not stand on a goal cell after the moves are not touched
+QueueFrame(s, a, t) ==
+  LET onGoal == { Cell(Moved(s, a).sh, GoalCells[g]) - 1 : g \in 1..Len(GoalCells) } IN
+  /\ Len(t.request_queue) = Len(s.request_queue)
+  /\ \A n \in 1..Len(s.request_queue) : s.request_queue[n] \notin onGoal => t.request_queue[n] = s.request_queue[n]
 Done(s, a) == CollisionIn(Moved(s, a)) \/ s.step_count + 1 >= TimeLimit
 
 (* abstraction of a state to the rule-relevant fields *)
@@ -178,11 +185,8 @@ A(s) == [cfgn |-> Config(s), queue |-> s.request_queue, step_count |-> s.step_co
          requested |-> s.shelves.is_requested]
 
 StepRel(s, a, t) ==
-  LET w == Moved(s, a)
-      dl == Deliver(s.request_queue, GoalCells, t.request_queue, w.sh) IN
-  /\ Config(t) = w
-  /\ Len(t.request_queue) = Len(s.request_queue)
-  /\ dl.ok /\ dl.q = t.request_queue
+  /\ Config(t) = Moved(s, a)
+  /\ QueueFrame(s, a, t) /\ QueueAdmissible(s, a, t)
   /\ t.shelves.is_requested = [j1 \in 1..NumSh(s) |-> IF (j1 - 1) \in Range(t.request_queue) THEN 1 ELSE 0]
   /\ t.step_count = s.step_count + 1
 
